@@ -24,7 +24,9 @@ pub fn build(draws: &[u16], tier: Tier) -> Case {
         2 => "crash",
         _ => "fail",
     };
-    let (family, mut prog) = match s.pick(5) {
+    let (family, mut prog) = match s.pick(6) {
+        // await loops: the length of the decision path differs between iterations
+        5 => ("await", crate::props::c18::await_prog(&mut s, false)),
         0 | 1 => ("litmus", gen::litmus(&mut s, &gen::LitmusParams { sc_only: false, fences: true, rmw: true, free_mix: true, max_threads: 2, max_events: 5, joins: false, late_spawn: true })),
         2 => ("locks", gen::sync_prog(&mut s, &SyncParams { mutex: true, rwlock: true, atomics: true, ordered_locks: true, max_threads: 3, max_ops: 6, ..sp.clone() })),
         3 => ("notify-condvar", gen::sync_prog(&mut s, &SyncParams { notify: true, condvar: true, atomics: true, max_threads: 2, max_ops: 7, joins: true, ..sp.clone() })),
@@ -53,8 +55,16 @@ pub fn build(draws: &[u16], tier: Tier) -> Case {
     }
     c.cfg.max_branches = 5000;
     c.cfg.max_permutations = None;
-    // a quarter of the cases run with a branch limit just above the longest decision path
-    c.x.n = Some(if s.chance(1, 4) { 1 + s.pick(3) as i64 } else { 0 });
+    // a quarter of the cases run with a branch limit just above the longest decision path, an eighth
+    // with one just below it (the longest executions then fail with the branch-limit panic, and the
+    // checkpoint of such an iteration must reproduce exactly that failure)
+    c.x.n = Some(if s.chance(1, 4) {
+        1 + s.pick(3) as i64
+    } else if s.chance(1, 6) {
+        -1 - s.pick(3) as i64
+    } else {
+        0
+    });
     let _ = tier;
     c
 }
@@ -80,11 +90,16 @@ pub fn eval(case: &Case) -> Verdict {
     probe_cfg.max_permutations = Some(700);
     probe_cfg.checkpoint_interval = 1;
     let need: std::sync::Arc<std::sync::Mutex<usize>> = std::sync::Arc::new(std::sync::Mutex::new(0));
+    let first_len: std::sync::Arc<std::sync::Mutex<usize>> = std::sync::Arc::new(std::sync::Mutex::new(0));
     let n2 = need.clone();
-    let hook = Box::new(move |ph: loom::verif::Phase, _i: usize, path: &[loom::verif::Branch]| {
+    let f2 = first_len.clone();
+    let hook = Box::new(move |ph: loom::verif::Phase, i: usize, path: &[loom::verif::Branch]| {
         if ph == loom::verif::Phase::IterationEnd {
             let mut m = n2.lock().unwrap();
             *m = (*m).max(path.len());
+            if i == 1 {
+                *f2.lock().unwrap() = path.len();
+            }
         }
     });
     let probe = crate::interp::collect_with(p, &probe_cfg, crate::interp::RunOpts { hook: Some(hook), ..Default::default() }, false);
@@ -93,8 +108,12 @@ pub fn eval(case: &Case) -> Verdict {
     }
     let mut case = case.clone();
     let tight = case.x.n.unwrap_or(0);
-    if tight > 0 && probe.report.panic.is_none() {
-        case.cfg.max_branches = *need.lock().unwrap() + tight as usize;
+    if tight != 0 && probe.report.panic.is_none() {
+        let need = *need.lock().unwrap() as i64;
+        // below the need: not below the length of the first iteration, so that (when the lengths
+        // differ) the failure happens in a later iteration and there is a checkpoint to resume from
+        let l1 = *first_len.lock().unwrap() as i64;
+        case.cfg.max_branches = if tight > 0 { need + tight } else { (need + tight).max(l1.min(need - 1)).max(2) } as usize;
     }
     let case = &case;
     let base = RunSpec { prog: p.clone(), cfg: case.cfg.clone(), ..Default::default() };
@@ -115,7 +134,7 @@ pub fn eval(case: &Case) -> Verdict {
         v.label("preemption_bound");
     }
     if case.cfg.max_branches < 5000 {
-        v.label("tight_max_branches");
+        v.label(if tight < 0 { "max_branches_below_need" } else { "tight_max_branches" });
     }
     if o1 != o2 {
         let at = o1.records.iter().zip(o2.records.iter()).position(|(a, b)| a != b);
@@ -125,6 +144,7 @@ pub fn eval(case: &Case) -> Verdict {
         );
     }
     if n < 2 {
+        v.detail = serde_json::json!({"N": n, "panic_uninterrupted": o1.panic, "max_branches": case.cfg.max_branches, "longest_path": *need.lock().unwrap(), "first_path": *first_len.lock().unwrap()});
         return v;
     }
     let file = script::scratch_file("ckpt");
@@ -174,6 +194,9 @@ pub fn eval(case: &Case) -> Verdict {
             };
             if failing {
                 v.label("program_fails");
+                if tight < 0 && o1.panic.as_deref().map(|m| m.starts_with("Model exceeded maximum number of branches")) == Some(true) {
+                    v.label("branch_limit_fails_in_later_iteration");
+                }
             } else {
                 v.label("plain_run_with_file");
             }
@@ -209,7 +232,7 @@ pub fn eval(case: &Case) -> Verdict {
     let start = if j >= 1 { j - 1 } else { 0 };
     let expect: Vec<crate::interp::IterRec> = o1.records[start.min(o1.records.len())..].to_vec();
     v.nontrivial = n >= 3 && reached > 1 && reached <= n && p.n_threads() >= 2;
-    v.detail = serde_json::json!({"N": n, "interval": c, "mode": mode, "reached": reached, "resume_from": j, "first_run_iters": first.iters, "second_run_iters": second.iters, "panic_uninterrupted": o1.panic, "panic_resumed": second.panic});
+    v.detail = serde_json::json!({"N": n, "interval": c, "mode": mode, "reached": reached, "resume_from": j, "first_run_iters": first.iters, "second_run_iters": second.iters, "panic_uninterrupted": o1.panic, "panic_resumed": second.panic, "max_branches": case.cfg.max_branches, "longest_path": *need.lock().unwrap(), "first_path": *first_len.lock().unwrap()});
     if second.records != expect {
         let at = second.records.iter().zip(expect.iter()).position(|(a, b)| a != b);
         return v.fail(
